@@ -36,7 +36,7 @@ ASSUMPTIONS = [
     "ill-typed operands: name/array/dict/non-numeric string where a number is required; name/array/dict where a string is required; the compound operators ' and \" only get missing-operand faults",
     "q/Q do not occur inside BT..ET (not allowed by ISO 8.2)",
 ]
-PROBES = ["resource-less form shared by two callers", "page interpreted twice", "split into >1 streams", "empty stream piece", "cut inside TJ array", "form invoked", "nested form", "form without own Resources", "operand fault: missing", "operand fault: ill-typed", "several operand faults in one program", "type3 font", "type0 font", "Tc nonzero across show operators", "double-quote operator", "TD sets leading", "q/Q restores text state", "text after form", "font cache eviction", "page origin non-zero"]
+PROBES = ["metric table in two spellings (W2)", "metric table in two spellings (W)", "resource-less form shared by two callers", "page interpreted twice", "split into >1 streams", "empty stream piece", "cut inside TJ array", "form invoked", "nested form", "form without own Resources", "operand fault: missing", "operand fault: ill-typed", "several operand faults in one program", "type3 font", "type0 font", "Tc nonzero across show operators", "double-quote operator", "TD sets leading", "q/Q restores text state", "text after form", "font cache eviction", "page origin non-zero"]
 TIERS = {
     "quick": {"batches": 16, "runs": 1200, "budget_s": 90},
     "thorough": {"batches": 128, "runs": 2500, "budget_s": 900},
@@ -320,6 +320,71 @@ def interpret(data, pol, ev, caching=True, passes=1):
         seams.EVICT.set(None)
 
 
+def metric_spellings(t, ctx, devs):
+    """The width tables of a CID font have two spellings - `c [v1 v2 ...]` (consecutive CIDs from c) and `c1 c2 v` (a range) -
+    for the horizontal /W (one number per CID) and the vertical /W2 (three numbers per CID).  The same table spelled in
+    different ways is the same table: every glyph gets the same matrix, advance and box (a relation between two runs of
+    the real code; no model of vertical writing is needed)."""
+    vertical = t.coin(60, 100, "ms.vertical")
+    c0 = t.pick([1, 30, 65, 300], "ms.c0")
+    n = t.rint(2, 5, "ms.n")
+    if vertical:
+        vals = [(-125 * t.rint(2, 8, "ms.w1"), 125 * t.rint(1, 6, "ms.vx"), 40 * t.rint(10, 24, "ms.vy")) for _ in range(n)]
+    else:
+        vals = [(125 * t.rint(0, 8, "ms.w"),) for _ in range(n)]
+
+    def spell(kind):
+        out = []
+        if kind == "list":
+            out += [c0, [x for v in vals for x in v]]
+        elif kind == "ranges":
+            for i, v in enumerate(vals):
+                out += [c0 + i, c0 + i] + list(v)
+        elif kind == "lists":
+            for i, v in enumerate(vals):
+                out += [c0 + i, list(v)]
+        else:  # first half as a list, the rest as one-CID ranges
+            h = max(1, n // 2)
+            out += [c0, [x for v in vals[:h] for x in v]]
+            for i, v in enumerate(vals[h:]):
+                out += [c0 + h + i, c0 + h + i] + list(v)
+        return out
+
+    kinds = ["list", t.pick(["ranges", "lists", "mixed"], "ms.other")]
+    cids = [c0 + t.draw(n + 1, "ms.cid") for _ in range(t.rint(2, 6, "ms.len"))] + [c0 + n - 1]
+    text = b"".join(c.to_bytes(2, "big") for c in cids)
+    size = t.pick([10, 12, 7.5], "ms.size")
+    content = b"BT /F1 %s Tf 100 700 Td <%s> Tj ET" % (docs.fmt_num(size), text.hex().encode())
+    res = []
+    for kind in kinds:
+        fd = {b"Type": Name(b"FontDescriptor"), b"FontName": Name(b"Metrics"), b"Flags": 4, b"Ascent": 800, b"Descent": -200, b"FontBBox": [0, -200, 1000, 800], b"ItalicAngle": 0, b"CapHeight": 700, b"StemV": 80}
+        desc = {b"Type": Name(b"Font"), b"Subtype": Name(b"CIDFontType2"), b"BaseFont": Name(b"Metrics"), b"CIDSystemInfo": {b"Registry": b"Adobe", b"Ordering": b"Identity", b"Supplement": 0}, b"FontDescriptor": fd, b"DW": 1000}
+        if vertical:
+            desc[b"DW2"] = [880, -1000]
+            desc[b"W2"] = spell(kind)
+        else:
+            desc[b"W"] = spell(kind)
+        font = {b"Type": Name(b"Font"), b"Subtype": Name(b"Type0"), b"BaseFont": Name(b"Metrics"), b"Encoding": Name(b"Identity-V" if vertical else b"Identity-H"), b"DescendantFonts": [desc]}
+        objects = {1: {b"Type": Name(b"Catalog"), b"Pages": Ref(2, 0)}, 2: {b"Type": Name(b"Pages"), b"Kids": [Ref(3, 0)], b"Count": 1}, 3: {b"Type": Name(b"Page"), b"Parent": Ref(2, 0), b"MediaBox": [0, 0, 612, 792], b"Contents": Ref(4, 0), b"Resources": {b"Font": {b"F1": font}}}, 4: docs.content_stream(content)}
+        pdf = docs.build_pdf(objects, 1).getvalue()
+        try:
+            chars = interpret(pdf, None, None)[0]
+        except Exception as e:
+            devs.append(Dev("C05:metric-spellings:raise:%s@%s" % (type(e).__name__, where(e)), "%r; %s spelled %r" % (e, "/W2" if vertical else "/W", spell(kind))))
+            return
+        res.append([(c.get_text(), tuple(c.matrix), c.adv, tuple(c.bbox)) for c in chars])
+    ctx.probe("metric table in two spellings (%s)" % ("W2" if vertical else "W"))
+    if res[0] != res[1]:
+        k = next((i for i, (a, b) in enumerate(zip(res[0], res[1])) if a != b), min(len(res[0]), len(res[1])))
+        devs.append(
+            Dev(
+                "C05:metric-spellings:%s" % ("W2" if vertical else "W"),
+                "glyph #%d of <%s>: spelled %r it has (matrix, adv, bbox) = %r; spelled %r it has %r"
+                % (k, text.hex(), spell(kinds[0]), res[0][k][1:] if k < len(res[0]) else None, spell(kinds[1]), res[1][k][1:] if k < len(res[1]) else None),
+            )
+        )
+
+
 def close(a, b):
     return abs(float(a) - float(b)) <= 1e-6 * (1 + abs(float(b)))
 
@@ -481,6 +546,8 @@ def run(tape, ctx, item=None):
                 ctx.probe("page interpreted twice")
                 compare(expected, results[1], cfg + "; second pass over the same page object", devs, tag + "-second-pass")
             scen.append((pieces, pdesc, fdesc))
+    if item is None and t.coin(12, 100, "metric.spellings"):
+        metric_spellings(t, ctx, devs)
     seen = {}
     for d in devs:
         seen.setdefault(d.sig, d)
